@@ -40,3 +40,84 @@ func verifHarness_C18_roundrobin(s int) {
 	}
 	verifReach("end")
 }
+
+//verif:stub github.com/cloudwego/netpoll.openPoll verifMgrOpenPoll
+//verif:stub github.com/bytedance/gopkg/lang/fastrand.Intn verifFastrandIntn
+
+var verifMgrPolls [12]*verifPoll
+var verifMgrN int
+
+func verifMgrOpenPoll() (Poll, error) {
+	p := &verifPoll{id: verifMgrN}
+	verifMgrPolls[verifMgrN] = p
+	verifMgrN++
+	return p, nil
+}
+
+func verifFastrandIntn(n int) int {
+	v := verifStubInt("fastrand")
+	verifAssume(v >= 0)
+	verifAssume(v < n)
+	return v
+}
+
+func verifMgrCheck(m *manager, want int, label string) {
+	open := 0
+	for i := 0; i < verifMgrN; i++ {
+		if !verifMgrPolls[i].closed {
+			open++
+			verifAssert(verifMgrPolls[i].running, label+"/open-poller-not-running")
+		}
+	}
+	verifAssert(open == want, label+"/number-of-running-pollers-differs-from-configuration")
+	verifAssert(len(m.polls) == want, label+"/pool-size-differs-from-configuration")
+	for i := 0; i < len(m.polls); i++ {
+		verifAssert(!m.polls[i].(*verifPoll).closed, label+"/closed-poller-in-pool")
+	}
+}
+
+// Reconfiguration between phases (sequential): a loops, Pick, then b loops (and possibly
+// another balancing mode), Pick again, then c loops: after each phase's first Pick exactly the
+// configured number of pollers run, the surplus ones are closed, and every Pick returns a
+// running member of the pool; round-robin visits every member.
+//
+//verif:bounds loop counts a,b,c in [1,4]; balancing mode switched or not; go poll.Wait() run at once
+//verif:param 1 4
+//verif:loop 20
+func verifHarness_C18_reconfig(a int) {
+	verifMgrN = 0
+	m := newManager(a)
+	p := m.Pick()
+	for verifRunPending() {
+	}
+	verifAssert(p != nil && !p.(*verifPoll).closed, "C18/phase1/pick-returned-closed-poller")
+	verifMgrCheck(m, a, "C18/phase1")
+	b := verifPick("b", 1, 4)
+	m.SetNumLoops(b)
+	if verifNondetBool("switch.lb") {
+		m.SetLoadBalance(Random)
+	}
+	seen := make([]bool, 12)
+	for i := 0; i < b; i++ {
+		q := m.Pick()
+		for verifRunPending() {
+		}
+		verifAssert(q != nil && !q.(*verifPoll).closed && q.(*verifPoll).running, "C18/phase2/pick-returned-dead-poller")
+		seen[q.(*verifPoll).id] = true
+	}
+	verifMgrCheck(m, b, "C18/phase2")
+	if m.balance.LoadBalance() == RoundRobin {
+		for i := 0; i < len(m.polls); i++ {
+			verifAssert(seen[m.polls[i].(*verifPoll).id], "C18/phase2/round-robin-skipped-a-poller")
+		}
+	}
+	c := verifPick("c", 1, 4)
+	m.SetNumLoops(c)
+	r := m.Pick()
+	for verifRunPending() {
+	}
+	verifAssert(r != nil && !r.(*verifPoll).closed, "C18/phase3/pick-returned-closed-poller")
+	verifMgrCheck(m, c, "C18/phase3")
+	verifReach("end")
+}
+
